@@ -15,6 +15,8 @@ PROBE = 'ZZ77+SUM(ZY1:ZZ2)+TRUE+ABS(1)'
 ERRV = lambda c: {'t': 'err', 'c': c}       # an error value handed to the setter is the value of the reference, like any other
 SETPOOL = [[], [None], [0], [False], [''], [5], [5, None], [None, 0], [5, 0], ['', False, None], [[1, 2]], [2.5],
            [ERRV('#DIV/0!')], [ERRV('#N/A')], [3, ERRV('#VALUE!')], [ERRV('#REF!'), None]]
+# values no formula can compute, handed to the setter of a function-call event: they are the value of the call all the same
+FNPOOL = SETPOOL + [[{'t': 'flt', 'r': 'inf'}], [{'t': 'flt', 'r': 'nan'}], [{'t': 'flt', 'r': '-inf'}, None], [5, {'t': 'flt', 'r': 'inf'}]]
 
 
 def may_be_array(n, env):
@@ -167,7 +169,7 @@ def rand_case(rng):
             # range keys are normalised by the spec; the listener keys ranges by what it receives,
             # so random range setters are attached through the written corners when already normalised
     if rng.random() < 0.3:
-        env['fnsets'].append({'key': 'REC', 'vals': [v if isinstance(v, dict) else enc(v) for v in rng.choice(SETPOOL)]})
+        env['fnsets'].append({'key': 'REC', 'vals': [v if isinstance(v, dict) else enc(v) for v in rng.choice(FNPOOL)]})
     return {'ast': ast, 'env': env}
 
 
